@@ -91,7 +91,11 @@ class LogObj:
 
 
 def _noop():
-    """action of an observer task (module level, so that a manager holding it can be pickled)"""
+    """action of an observer task (module level, so that a manager holding it can be pickled).  An observer writes nothing, so an injected fault
+    scheduled for "the first write of this task" is raised by the action itself (C18: "if a task, or the container write it performs, raises")"""
+    w = _current.get("w")
+    if w is not None and w.ctl.armed:
+        w.ctl.on_write(("observer",))
 
 
 class Funcs:
@@ -120,6 +124,9 @@ def universe(name, keys="plain"):
         # keys as numpy hands them out (for i in np.arange(n): s['l'][i] = ...; names read from a numpy string array)
         "numpy":   {"a": _np.str_("a"), "b": _np.str_("b"), "c": _np.int64(3), "d": _np.str_("d"), "n": _np.str_("n"), "x": _np.str_("x"), "y": _np.int64(7),
                     "z": _np.str_("z"), "i": _np.str_("i")},
+        # the manager's DEFAULT container (mgr.ref() without a container = xdeps.utils.AttrDict, whose attributes ARE its items): plain names; half of
+        # the locations are assigned through attribute references and read back as items, the other half the other way round
+        "attrdict": {"a": "a", "b": "b", "c": "c", "d": "d", "n": "n", "x": "x", "y": "y", "z": "z", "i": "i"},
     }[keys]
     LI = (lambda i: _np.int64(i)) if keys == "numpy" else (lambda i: i)
     if name in ("U1", "U4"):     # flat a, b + nested dict n{x,y}  (U4: same locations, small menu, explored deeper)
@@ -149,10 +156,26 @@ def universe(name, keys="plain"):
         loc = {k: _mk("s", ("item", K[k])) for k in "abcdx"}
         loc["f:total"] = _mk("f", ("attr", "total"))
         leaves = list("abcdx")
+    elif name == "U7":   # flat a, c, d with a NESTED update: the task N1 assigns d through the manager from inside its action
+        loc = {k: _mk("s", ("item", K[k])) for k in "acd"}
+        loc["f:total"] = _mk("f", ("attr", "total"))
+        leaves = list("acd")
     else:
         raise KeyError(name)
-    return {"name": name, "keys": keys, "loc": loc, "leaves": leaves, "label": "s",
-            "inv": {v: k for k, v in loc.items()}}
+    uni = {"name": name, "keys": keys, "loc": loc, "leaves": leaves, "label": "s"}
+    if keys == "attrdict":
+        if any(len(loc[l][1]) != 1 for l in leaves):
+            raise KeyError("the attrdict binding is for flat universes")
+        read = {}
+        for i, l in enumerate(leaves):
+            key = loc[l][1][0][1]
+            if i % 2 == 0:
+                loc[l], read[l] = _mk("s", ("attr", key)), _mk("s", ("item", key))
+            else:
+                read[l] = _mk("s", ("attr", key))
+        uni["read"], uni["container"] = read, "attrdict"
+    uni["inv"] = {v: k for k, v in loc.items()}
+    return uni
 
 
 def rebase(uni, label="t", prefix=(("item", "sub"),)):
@@ -174,7 +197,14 @@ class World:
         self.ctl = Ctl()
         self.taskspec = taskspec or {}
         lab = uni["label"]
-        if manager is None:
+        if manager is None and uni.get("container") == "attrdict":
+            self.m = xdeps.Manager()
+            self.sref = self.m.ref(None, lab)           # the default container of Manager.ref()
+            self.s = self.sref._owner
+            for l in uni["leaves"]:
+                self.s[uni["loc"][l][1][0][1]] = mem[l]
+            self.fref = self.m.ref(Funcs, "f")
+        elif manager is None:
             self.s = self._build_container(mem)
             self.m = xdeps.Manager()
             self.sref = self.m.ref(self.s, lab)
@@ -238,7 +268,7 @@ class World:
             list.__setitem__(o, key, v)
 
     def raw_get(self, l):
-        label, steps = self.uni["loc"][l]
+        label, steps = self.uni.get("read", self.uni["loc"])[l]       # (the attrdict binding reads through the OTHER view of the container)
         o = self.s
         for kind, key in steps:
             o = getattr(o, key) if kind == "attr" else o[key]
@@ -308,6 +338,15 @@ class World:
             def action():
                 w._raw_write_logged(out, w.raw_get(i1) + w.raw_get(i2))
             return xt.FunctionTask(t, action, {self.ref(x) for x in sp["targets"]}, {self.ref(x) for x in sp["deps"]})
+        if sp["kind"] == "nest":
+            # a nested update: the action assigns THROUGH THE MANAGER (ref[key] = value -> Manager.set_value) while the outer set_value is running
+            i1, i2 = sp["ins"]
+            nout = sp["nout"]
+            w = self
+
+            def action():
+                _assign(w, nout, w.raw_get(i1) + w.raw_get(i2))
+            return xt.FunctionTask(t, action, set(), {self.ref(x) for x in sp["deps"]})
         return xt.LinearKnob(t, self.ref(sp["src"]), list(sp["w"]), [self.ref(x) for x in sp["tl"]])
 
     def _raw_write_logged(self, l, v):
@@ -662,6 +701,11 @@ def transfer(w, lab):
         w2.m.copy_expr_from(w.m, w.uni["label"], bindings={w.sref: (w2.sref if reb else w2.sref["sub"])}, overwrite=False)
     else:
         raise KeyError(kind)
+    # the bindings of a copy are arguments of that one call: the destination manager's own label table must be what it was (a rebinding that stays behind
+    # makes every later load / copy_expr_from on that manager resolve the label to the rebound place)
+    for lb, r in (("f", w2.fref), (w2.uni["label"], w2.sref)):
+        if w2.m.containers.get(lb) is not r or len(w2.m.containers) != 2:
+            raise DecoyMismatch(f"after {kind} the destination manager's label table is {dict(w2.m.containers)!r}: label {lb!r} no longer names its container")
     w2.shadows = list(w.shadows)
     return w2
 
